@@ -58,7 +58,7 @@ def gen_sequence(rng, maxops):
     for _ in range(rng.randint(1, maxops)):
         k = rng.choice(['append', 'extend', 'iadd', 'insert', 'insert', 'setitem', 'setitem', 'setslice',
                         'delitem', 'delitem', 'delslice', 'pop', 'pop', 'removeobj', 'removekey', 'removeobj',
-                        'clear', 'imul', 'replace'])
+                        'clear', 'imul', 'replace', 'selfassign', 'badassign'])
         if k == 'append':
             ops.append((k, pick()))
         elif k in ('extend', 'iadd', 'replace'):
@@ -66,6 +66,11 @@ def gen_sequence(rng, maxops):
                 continue
             # the argument may be any iterable: a list, a tuple, or something that can be walked only once
             ops.append((k, picks(0, 3), rng.choice(['list', 'list', 'tuple', 'gen', 'iter', 'reversed'])))
+        elif k == 'selfassign':
+            # doc.lights = doc.lights / a generator or filter over it: the data assigned is (derived lazily from) the library itself
+            ops.append((k, rng.choice(['same', 'gen', 'listcopy', 'filter-all'])))
+        elif k == 'badassign':
+            ops.append((k, rng.choice([5, None])))
         elif k in ('insert', 'setitem'):
             ops.append((k, arg(), pick()))
         elif k == 'setslice':
@@ -103,6 +108,8 @@ def fb(b):
 
 def op_line(op):
     k = op[0]
+    if k in ('selfassign', 'badassign'):
+        return 'extend'          # for the list model: nothing changes
     if k in ('append', 'removeobj'):
         return '%s %s' % (k, fo(op[1]))
     if k in ('extend', 'iadd', 'replace'):
@@ -205,6 +212,8 @@ class Impl(object):
                     del S[spos(('k', op[1]))]
                 except KeyError:
                     raise ValueError(op[1])
+            elif k in ('selfassign', 'badassign'):
+                pass
             elif k == 'clear':
                 S.clear()
             elif k == 'imul':
@@ -269,6 +278,22 @@ class Impl(object):
                         tmp *= arg
                     if getattr(self.doc, self.host) is not tmp:
                         return 'raw:augmented-assignment-rebinds'
+                    distinct = len(set(o.id for o in list.__iter__(tmp))) == len(tmp)     # re-indexing picks the last carrier of an id: only then is it the same index
+                    if distinct and (len(op) > 2 and op[2] in ('tuple', 'iter') or k == 'imul' and op[1] % 2 == 0):
+                        # the statement `doc.lights += x` also assigns the result back through the attribute
+                        setattr(self.doc, self.host, tmp)
+            elif k == 'selfassign':
+                if self.doc is not None and len(set(o.id for o in list.__iter__(getattr(self.doc, self.host)))) == len(getattr(self.doc, self.host)):
+                    cur = getattr(self.doc, self.host)
+                    data = {'same': cur, 'gen': (o for o in cur), 'listcopy': list(cur), 'filter-all': filter(lambda o: True, cur)}[op[1]]
+                    setattr(self.doc, self.host, data)
+            elif k == 'badassign':
+                if self.doc is not None:
+                    try:
+                        setattr(self.doc, self.host, op[1])
+                        return 'raw:assignment-of-%r-accepted' % (op[1],)
+                    except TypeError:
+                        pass            # refused, and (the oracle checks) nothing was changed
             elif k == 'replace':
                 xs = self.iterable(op)
                 if self.doc is None:
@@ -346,6 +371,12 @@ class Impl(object):
         for i, o in enumerate(items):
             if L[i] is not o or L[i - len(items)] is not o:
                 return 'positional lookup differs at %d' % i
+        # membership of ELEMENTS is that of a plain list (also for an element whose id another element carries too)
+        for uid, o in self.objs.items():
+            if (o in L) != any(x is o for x in items) and not any(x.id == o.id for x in items if x is not o):
+                return 'membership of element %s is %s but list %s' % (o, o in L, items)
+            if any(x is o for x in items) and not (o in L):
+                return 'element %s is in the list %s but `in` says it is not' % (o, items)
         return None
 
 
